@@ -386,9 +386,12 @@ class Index:
                         continue
                     if not call.args or not (isinstance(call.args[0], ast.Name) and call.args[0].id == 'self') or len(call.args) != len(h.params):
                         continue
-                    if not all(isinstance(a, ast.Name) and a.id in fn.params for a in call.args):
+                    if not all((isinstance(a, ast.Name) and a.id in fn.params) or isinstance(a, ast.Constant) for a in call.args):
                         continue
-                    ren = {hp: a.id for hp, a in zip(h.params, call.args)}
+                    ren = {hp: a.id for hp, a in zip(h.params, call.args) if isinstance(a, ast.Name)}
+                    consts = {hp: a for hp, a in zip(h.params, call.args) if isinstance(a, ast.Constant)}
+                    if any(isinstance(n, ast.Name) and n.id in consts and not isinstance(n.ctx, ast.Load) for n in ast.walk(h.node)):
+                        continue        # the helper rebinds a parameter that is given a constant here
                     # locals of the helper must not collide with parameter names of the method
                     locals_ = {n.id for n in ast.walk(h.node) if isinstance(n, ast.Name) and isinstance(n.ctx, ast.Store)}
                     if locals_ & (set(fn.params) - set(ren.values())) or any(isinstance(n, (ast.Yield, ast.YieldFrom, ast.Global, ast.Nonlocal)) for n in ast.walk(h.node)):
@@ -399,6 +402,8 @@ class Index:
                         def visit_Name(self, n):
                             if n.id in ren:
                                 return ast.copy_location(ast.Name(id=ren[n.id], ctx=n.ctx), n)
+                            if n.id in consts:
+                                return ast.copy_location(ast.Constant(value=consts[n.id].value), n)
                             return n
                     new_body = [R().visit(st) for st in new_body]
                     if isinstance(body[0], ast.Expr) and any(isinstance(n, ast.Return) and n.value is not None for st in new_body for n in ast.walk(st)):
